@@ -14,6 +14,7 @@ package eng
 import (
 	"go/types"
 	"sort"
+	"strings"
 
 	"golang.org/x/tools/go/ssa"
 
@@ -340,4 +341,121 @@ func returnsStorage(f *ssa.Function, modelingPath string) bool {
 		}
 	}
 	return false
+}
+
+// FAM-3 — sibling agreement of the four family blocks when new attribute arrays are created: a function that
+// stores freshly made arrays into the per-family maps (map[string][]vectorN / []float64) creates them all with the
+// same LENGTH (make([]T, L): L canonically equal across the families — usually 0 with the elements appended, or one
+// common vertex count). An array made with a non-zero length in one family and length 0 in the others starts with
+// extra zero elements once the common append loop has run: the families end up with different lengths.
+type FamMake struct {
+	Fn     *ssa.Function
+	At     ssa.Instruction
+	Family int
+	Len    string
+	OK     bool
+	Detail string
+}
+
+func attrFamilyOfElem(t types.Type) int {
+	s, ok := t.Underlying().(*types.Slice)
+	if !ok {
+		return 0
+	}
+	if b, ok := s.Elem().Underlying().(*types.Basic); ok && b.Kind() == types.Float64 {
+		return 1
+	}
+	if n, ok := types.Unalias(s.Elem()).(*types.Named); ok && n.Obj().Pkg() != nil {
+		p := n.Obj().Pkg().Path()
+		switch {
+		case strings.HasSuffix(p, "/vector2"):
+			return 2
+		case strings.HasSuffix(p, "/vector3"):
+			return 3
+		case strings.HasSuffix(p, "/vector4"):
+			return 4
+		}
+	}
+	return 0
+}
+
+func FamilyMakes(fns []*ssa.Function) []FamMake {
+	var out []FamMake
+	for _, fn := range fns {
+		var ms []FamMake
+		ssau.AllInstrs(fn, func(in ssa.Instruction) {
+			mu, ok := in.(*ssa.MapUpdate)
+			if !ok {
+				return
+			}
+			val := mu.Value
+			for d := 0; d < 3; d++ {
+				if ct, ok := val.(*ssa.ChangeType); ok {
+					val = ct.X
+				}
+			}
+			// make([]T, L[, C]) is a MakeSlice, or — for a constant size — new([K]T) sliced to [:h]
+			var at ssa.Instruction
+			length := ""
+			switch y := val.(type) {
+			case *ssa.MakeSlice:
+				at, length = y, canonExpr(y.Len, 0)
+			case *ssa.Slice:
+				al, ok := y.X.(*ssa.Alloc)
+				if !ok || !al.Heap || y.Low != nil {
+					return
+				}
+				arr, ok := al.Type().Underlying().(*types.Pointer).Elem().Underlying().(*types.Array)
+				if !ok {
+					return
+				}
+				at = y
+				length = itoa(int(arr.Len()))
+				if y.High != nil {
+					k, ok := ssau.ConstInt(y.High)
+					if !ok {
+						return
+					}
+					length = itoa(int(k))
+				}
+			default:
+				return
+			}
+			fam := attrFamilyOfElem(mu.Value.Type())
+			if fam == 0 {
+				return
+			}
+			if kt, ok := mu.Map.Type().Underlying().(*types.Map); !ok || !types.Identical(kt.Key(), types.Typ[types.String]) {
+				return
+			}
+			ms = append(ms, FamMake{Fn: fn, At: at, Family: fam, Len: length})
+		})
+		fams := map[int]bool{}
+		for _, m := range ms {
+			fams[m.Family] = true
+		}
+		if len(fams) < 2 {
+			continue
+		}
+		// the reference length: the most common one
+		count := map[string]int{}
+		for _, m := range ms {
+			count[m.Len]++
+		}
+		ref, best := "", 0
+		for l, n := range count {
+			if n > best || (n == best && l < ref) {
+				ref, best = l, n
+			}
+		}
+		for _, m := range ms {
+			m.OK = m.Len == ref
+			m.Detail = "new float" + itoa(m.Family) + " arrays are made with length " + m.Len + ", like the other families (" + ref + ")"
+			if !m.OK {
+				m.Detail = "new float" + itoa(m.Family) + " arrays are made with length " + m.Len + " while the other families use " + ref + ": after the common fill the families differ in length"
+			}
+			out = append(out, m)
+		}
+	}
+	return out
 }
